@@ -1,6 +1,7 @@
 package main
 
 import (
+	"hash/fnv"
 	"encoding/hex"
 	"encoding/json"
 	"fmt"
@@ -148,6 +149,7 @@ func runPub(c *h.Ctx, r *h.Report) {
 			cases = append(cases, genPubCase(c.Rand.Fork(), o))
 		}
 		cases = append(cases, largePubCases(c.Rand.Fork())...)
+		cases = append(cases, collidingPubCases(c.Rand.Fork())...)
 	}
 
 	for _, cs := range cases {
@@ -479,6 +481,48 @@ func largePubCases(rr *h.Rand) []pubCase {
 		cs.Pad = sz - len(pre) - len(post)
 		cs.Body = pre + "@PAD@" + post
 		out = append(out, cs)
+	}
+
+	return out
+}
+
+// collidingPubCases: a claim template, a topic it covers and a topic it does not cover whose match-cache keys
+// (m_<selector>_<topic>) collide under FNV-32a, the hash of the sharded cache (birthday search). Posted one after
+// the other on the same hub — covered first, then forbidden, and the other way round on the other transport: a
+// cache that identifies an entry by anything coarser than its whole key answers the second from the first.
+func collidingPubCases(rr *h.Rand) []pubCase {
+	h32 := func(s string) uint32 {
+		f := fnv.New32a()
+		f.Write([]byte(s))
+
+		return f.Sum32()
+	}
+	base := fmt.Sprintf("https://example.com/s%d", rr.Intn(100000))
+	sel := base + "/books/{id}"
+	seen := map[uint32]string{}
+	const n = 1 << 17
+	for i := 0; i < n; i++ {
+		t := fmt.Sprintf("%s/books/%d", base, i)
+		seen[h32("m_"+sel+"_"+t)] = t
+	}
+	var out []pubCase
+	for i := 0; i < 8*n && len(out) < 8; i++ {
+		t := fmt.Sprintf("%s/admin/alerts/%d", base, i)
+		t1, ok := seen[h32("m_"+sel+"_"+t)]
+		if !ok {
+			continue
+		}
+		bolt := len(out)%4 >= 2
+		mk := func(topic string) pubCase {
+			return pubCase{Cfg: hubCfg{PubAlg: "HS256", SubAlg: "HS256", Bolt: bolt, Origins: []string{"https://allowed.example"}}, Carrier: "header",
+				ClaimsJSON: `{"mercure":{"publish":["` + sel + `"]}}`, ContentType: "application/x-www-form-urlencoded", Topics: []string{topic},
+				Body: url.Values{"topic": {topic}, "data": {"x"}, "private": {"on"}}.Encode()}
+		}
+		if bolt {
+			out = append(out, mk(t), mk(t1), mk(t))
+		} else {
+			out = append(out, mk(t1), mk(t), mk(t1))
+		}
 	}
 
 	return out
